@@ -43,7 +43,7 @@ ASSUMPTIONS = ["a socket that reported a fatal error or was shut down by POX "
                "select() on a closed socket raises ValueError as CPython does",
                "one cooperative sender per connection; concurrent sends from "
                "several foreign threads are out of scope"]
-REQUIRED = ["ctl_runs", "ctl_deferred_flushes", "ctl_partial_writes",
+REQUIRED = ["ctl_backlogs_of_very_many_pieces", "ctl_runs", "ctl_deferred_flushes", "ctl_partial_writes",
             "ctl_eagain", "ctl_fatal", "ctl_streams_compared",
             "iow_cases", "iow_partial_writes", "iow_eagain", "iow_fatal",
             "iow_fast_sends", "iow_streams_compared",
@@ -128,7 +128,7 @@ def run_ctl (scn, schedule, policy, seed):
   if policy == "pct":
     pct = [rng.randrange(5, 400) for _ in range(3)]
   c = ilv.Controller(C["codes"], schedule=schedule, policy=policy, rng=rng,
-                     max_steps=40000, pct_points=pct)
+                     max_steps=scn.get("max_steps", 40000), pct_points=pct)
   shim = ilv.ThreadingShim(c)
 
   def vpoll (r, w, x, t):
@@ -289,7 +289,7 @@ def run_ctl (scn, schedule, policy, seed):
 
   c.on_idle = on_idle
   try:
-    ok = c.run(main, wall_timeout=30)
+    ok = c.run(main, wall_timeout=scn.get("wall", 30))
   finally:
     of_01.threading, of_01.select, of_01.deferredSender = saved
     ds = obs["ds"]
@@ -445,6 +445,21 @@ def gen_ctl_enum (shard, nshards, length):
         yield dict(ncons=1, program=prog,
                    scripts=[concrete_script(script, None)])
       i += 1
+
+
+def gen_ctl_mass (sizes):
+  """A switch that has stopped reading for a while: thousands of messages (or
+  one message of thousands of write-sized pieces) pile up for the deferred
+  sender before the socket takes anything again.  However long the backlog,
+  what the socket finally accepts is the queued messages, whole and in order."""
+  for n in sizes:
+    yield dict(ncons=1, scripts=[["eagain_blocked"]], mass=n,
+               program=[["send", 0, 8 + i % 5] for i in range(n)] + [["drain", 0], ["flush"]],
+               max_steps=400 * n + 100000, wall=600)
+    yield dict(ncons=1, scripts=[["eagain_blocked"]], mass=n,
+               program=[["send", 0, 24], ["send", 0, 4096 * n + 17], ["send", 0, 9],
+                        ["drain", 0], ["flush"]],
+               max_steps=400 * n + 100000, wall=600)
 
 
 def gen_ctl_random (rng, n):
@@ -778,7 +793,8 @@ def plan (tier, seed):
             [dict(mode="ctl_dfs", scn=i, bound=2, limit=150)
              for i in range(len(CTL_DFS))] +
             [dict(mode="iow_enum", shard=i, nshards=2, length=4) for i in range(2)] +
-            [dict(mode="iow_rand", n=3000, sub=0)])
+            [dict(mode="iow_rand", n=3000, sub=0)] +
+            [dict(mode="ctl_mass", sizes=[70, 300, 1100]), dict(mode="ctl_mass", sizes=[4200])])
   return ([dict(mode="ctl_enum", shard=i, nshards=8, length=5) for i in range(8)] +
           [dict(mode="ctl_rand", policy=p, n=6000, sub=i)
            for i, p in enumerate(["random", "pct", "nonpreemptive",
@@ -786,7 +802,8 @@ def plan (tier, seed):
           [dict(mode="ctl_dfs", scn=i, bound=3, limit=4000)
            for i in range(len(CTL_DFS))] +
           [dict(mode="iow_enum", shard=i, nshards=4, length=5) for i in range(4)] +
-          [dict(mode="iow_rand", n=60000, sub=i) for i in range(4)])
+          [dict(mode="iow_rand", n=60000, sub=i) for i in range(4)] +
+          [dict(mode="ctl_mass", sizes=[s_]) for s_ in (130, 520, 1030, 2050, 4100, 8200, 16400, 33000)])
 
 
 def run (spec, rep):
@@ -796,6 +813,12 @@ def run (spec, rep):
     for scn in gen_ctl_enum(spec["shard"], spec["nshards"], spec["length"]):
       do_ctl(scn, [], "nonpreemptive", 0, rep)
       if first: rep.sample(dict(part="ctl", scn=scn)); first = False
+  elif m == "ctl_mass":
+    for scn in gen_ctl_mass(spec["sizes"]):
+      obs = do_ctl(scn, [], "nonpreemptive", 0, rep)
+      if obs is not None:
+        rep.count("ctl_backlogs_of_very_many_pieces")
+        rep.maxi("ctl_pieces_queued_for_one_connection", scn["mass"])
   elif m == "ctl_rand":
     rng = random.Random("c20/ctl/%d/%d" % (spec["seed"], spec["sub"]))
     sigs = set()
